@@ -26,8 +26,9 @@ Proof.
   - rewrite <- (app_nil_r p) at 1. rewrite H by (exists (VLeaf v); reflexivity). reflexivity.
   - rewrite <- (app_nil_r p) at 1. rewrite H by (eexists; reflexivity).
     rewrite IHl, IHr.
-    + rewrite !map_app. simpl. rewrite !map_map. rewrite !app_nil_r.
-      do 3 f_equal; [|do 2 f_equal]; apply map_ext; intros q; rewrite <- app_assoc; reflexivity.
+    + assert (E1 : forall b T, map (fun q => g ((p ++ [b]) ++ q)) T = map (fun q => g (p ++ q)) (map (cons b) T)).
+      { intros b T. rewrite map_map. apply map_ext. intros q. rewrite <- app_assoc. reflexivity. }
+      rewrite !E1. rewrite !map_app. simpl. rewrite !map_app. simpl. rewrite ?app_nil_r. reflexivity.
     + intros q (s & Hq). rewrite <- app_assoc. simpl. apply H. exists s. exact Hq.
     + intros q (s & Hq). rewrite <- app_assoc. simpl. apply H. exists s. exact Hq.
 Qed.
@@ -80,7 +81,7 @@ Proof. induction p as [|b p IH]; simpl; auto. rewrite eqb_reflx, IH. reflexivity
 Lemma lcp_comm p : forall q, lcp p q = lcp q p.
 Proof.
   induction p as [|b p IH]; intros [|c q]; simpl; auto.
-  rewrite (eqb_sym b c). destruct (eqb c b) eqn:E; auto. apply eqb_prop in E; subst. rewrite IH. reflexivity.
+  destruct b, c; simpl; auto; rewrite IH; reflexivity.
 Qed.
 
 (* between the first occurrences of two distinct nodes the tour passes through their least
@@ -99,29 +100,26 @@ Proof.
     destruct q as [|bq q]; [destruct bp; simpl in Hlt; lia|].
     assert (Hp' : valid (if bp then r else l) p) by (destruct Hp as (s & Hp); exists s; exact Hp).
     assert (Hq' : valid (if bq then r else l) q) by (destruct Hq as (s & Hq); exists s; exact Hq).
-    destruct bp, bq; cbn [fo] in *.
+    destruct bp, bq; cbn [fo] in *; unfold path in *.
     + (* both right *)
-      cbn [rtour]. rewrite slice_cons. rewrite slice_app_r by (rewrite map_length; lia).
-      rewrite map_length.
-      replace (length (rtour l) + S (fo r p) - length (rtour l)) with (S (fo r p)) by lia.
-      replace (length (rtour l) + S (fo r q) - length (rtour l)) with (S (fo r q)) by lia.
+      cbn [rtour]. rewrite slice_cons. rewrite slice_app_r2 by apply map_length.
       rewrite slice_cons. pose proof (fo_lt _ _ Hq') as Lq'.
-      rewrite slice_app_l by (rewrite map_length; lia). rewrite slice_map.
+      rewrite slice_app_l by (rewrite map_length; unfold path in *; lia). rewrite slice_map.
       destruct (IHr p q Hp' Hq' ltac:(lia)) as (Hin & Hall). simpl lcp. split.
       * apply in_map. exact Hin.
       * intros x Hx. apply in_map_iff in Hx. destruct Hx as (y & <- & Hy).
         destruct (Hall y Hy) as (s & ->). exists s. reflexivity.
     + (* p right, q left: impossible *)
-      pose proof (fo_lt _ _ Hq') as Lq'. lia.
+      pose proof (fo_lt _ _ Hq') as Lq'. unfold path in *. lia.
     + (* p left, q right: the middle visit of the root lies in the slice *)
       simpl lcp. split; [|intros x _; exists x; reflexivity].
       pose proof (fo_lt _ _ Hp') as Lp'.
-      eapply slice_nth with (k := S (length (rtour l))); [|lia].
-      cbn [rtour nth_error]. rewrite nth_error_app2 by (rewrite map_length; lia).
+      eapply slice_nth with (k := S (length (rtour l))); [|unfold path in *; lia].
+      cbn [rtour nth_error]. rewrite nth_error_app2 by (rewrite map_length; unfold path in *; lia).
       rewrite map_length, Nat.sub_diag. reflexivity.
     + (* both left *)
       cbn [rtour]. rewrite slice_cons. pose proof (fo_lt _ _ Hq') as Lq'.
-      rewrite slice_app_l by (rewrite map_length; lia). rewrite slice_map.
+      rewrite slice_app_l by (rewrite map_length; unfold path in *; lia). rewrite slice_map.
       destruct (IHl p q Hp' Hq' ltac:(lia)) as (Hin & Hall). simpl lcp. split.
       * apply in_map. exact Hin.
       * intros x Hx. apply in_map_iff in Hx. destruct Hx as (y & <- & Hy).
@@ -153,10 +151,10 @@ Qed.
 Lemma lca_new_spec t : exists c, lca_new t = Some c /\ seg c = map (G t) (rtour t) /\
   forall p, valid t p -> nth_error (index_map c) (G t p) = Some (fo t p).
 Proof.
-  unfold lca_new. fold (bpaths t).
-  rewrite (euler_tour (fun p => index_of p (bpaths t)) (G t) t []).
-  2:{ intros q Hq. simpl. apply G_spec; auto. }
-  simpl. rewrite (map_ext (fun q => G t q) (G t)) by reflexivity.
+  unfold lca_new. cbv zeta. change (map fst (bfs t)) with (bpaths t).
+  assert (Ee : euler (fun p : path => index_of p (bpaths t)) [] t = Some (map (G t) (rtour t))).
+  { rewrite (euler_tour _ (G t) t []); [reflexivity|]. intros q Hq. simpl. apply G_spec; auto. }
+  rewrite Ee.
   set (ev := map (G t) (rtour t)).
   set (gi := fun i => match nth_error (bpaths t) i with Some p => fo t p | None => 0 end).
   rewrite (map_opt_Some _ gi).
@@ -201,7 +199,8 @@ Qed.
 
 Lemma has_dup_NoDup l : has_dup l = false <-> NoDup l.
 Proof.
-  induction l as [|x t IH]; simpl; split; intros H; auto; try constructor.
+  induction l as [|x t IH]; simpl; split; intros H; auto.
+  - constructor.
   - apply orb_false_iff in H. destruct H as (H1 & H2). constructor; [|apply IH; auto].
     intros Hin. assert (existsb (Nat.eqb x) t = true) by (apply existsb_exists; exists x; split; auto; apply Nat.eqb_refl).
     congruence.
@@ -213,7 +212,7 @@ Qed.
 Lemma In_leaf_labels v ns : In v (leaf_labels ns) <-> In (VLeaf v) ns.
 Proof.
   induction ns as [|[w|l r] t IH]; simpl; [tauto| |].
-  - rewrite IH. split; intros [H|H]; auto; left; congruence.
+  - rewrite IH. split; (intros [H|H]; [left; congruence|right; exact H]).
   - rewrite IH. split; [auto|intros [H|H]; [discriminate|auto]].
 Qed.
 
@@ -338,16 +337,16 @@ Lemma idx_lt_iff t : forall p q, valid t p -> valid t q -> (idx t p < idx t q <-
 Proof.
   induction t as [v|l IHl r IHr]; intros p q Hp Hq.
   - destruct Hp as (s & Hp), Hq as (s' & Hq). destruct p; [|discriminate]. destruct q; [|discriminate].
-    simpl. unfold prime_rel. split; [lia|]. intros (_ & _ & H). congruence.
+    simpl. unfold prime_rel. split; [lia|]. intros (_ & _ & Hne). congruence.
   - destruct p as [|bp p]; destruct q as [|bq q].
-    + simpl. unfold prime_rel. split; [lia|]. intros (_ & _ & H). congruence.
+    + simpl. unfold prime_rel. split; [lia|]. intros (_ & _ & Hne). congruence.
     + assert (Hq' : valid (if bq then r else l) q) by (destruct Hq as (s & Hq); exists s; exact Hq).
       destruct bq; simpl; unfold prime_rel; simpl.
       * split; [intros _|lia]. repeat split; auto; [right; exists q; reflexivity|discriminate].
-      * pose proof (idx_lt _ _ Hq'). split; [lia|]. intros (_ & [H|(s & H)] & _); discriminate.
+      * pose proof (idx_lt _ _ Hq'). split; [lia|]. intros (_ & [Hx|(sx & Hx)] & _); discriminate.
     + assert (Hp' : valid (if bp then r else l) p) by (destruct Hp as (s & Hp); exists s; exact Hp).
       destruct bp; simpl; unfold prime_rel; simpl.
-      * split; [lia|]. intros ([H|(s & H)] & _); discriminate.
+      * split; [lia|]. intros ([Hx|(sx & Hx)] & _); discriminate.
       * pose proof (idx_lt _ _ Hp'). split; [intros _|lia].
         repeat split; auto; [right; exists p; reflexivity|discriminate].
     + assert (Hp' : valid (if bp then r else l) p) by (destruct Hp as (s & Hp); exists s; exact Hp).
@@ -355,7 +354,7 @@ Proof.
       destruct bp, bq.
       * rewrite prime_rel_cons. rewrite <- (IHr p q Hp' Hq'). simpl. lia.
       * pose proof (idx_lt _ _ Hq'). simpl. unfold prime_rel; simpl. split; [lia|].
-        intros ([H|(s & H)] & _); discriminate.
+        intros ([Hx|(sx & Hx)] & _); discriminate.
       * pose proof (idx_lt _ _ Hp'). simpl. unfold prime_rel; simpl. split; [intros _|lia].
         repeat split; [right; exists p; reflexivity|right; exists q; reflexivity|discriminate].
       * rewrite prime_rel_cons. rewrite <- (IHl p q Hp' Hq'). simpl. lia.
